@@ -29,7 +29,7 @@ def tokOk (cc : CharClass) (t : Token) (rest : List Char) : Prop :=
     else if t.value = "?." then ∀ c, rest.head? = some c → c ≠ '?' ∧ c ≠ '.'
     else if t.value = "." then ∀ x, rest.head? = some x → x ≠ '.' ∧ LexTables.std.dotDigits.contains x = false
     else if t.value = "not" then NotFollow cc rest
-    else if t.value = "not in" then rest.head? = none ∨ rest.head? = some ' '
+    else if t.value = "not in" then WordEnd cc rest
     else if LexTables.std.kwOps.contains t.value = true then ∀ x, rest.head? = some x → cc.isAlphaNumeric x = false
     else if isDbl1 t.value = true then ∀ x, rest.head? = some x → LexTables.std.dblSecond.contains x = false
     else True
@@ -81,7 +81,8 @@ theorem tok_spells_op {cc : CharClass} (hcc : cc.AsciiExact) (v : String) (l : L
   · exact spells_cast (spells_dot hcc) (by decide) rfl (fun r h => by simpa [tokOk] using h)
   · exact spells_cast (spells_dotdot hcc) (by decide) rfl (fun r h => trivial)
   · exact spells_cast (spells_not hcc) rfl rfl (fun r h => by simpa [tokOk] using h)
-  · exact spells_cast (spells_notin hcc [' '] (by simp) (by simp)) (by decide) rfl
+  · exact spells_cast (spells_notin hcc [' '] (by simp) (by simpa using wordBlank_space hcc)
+      (by simpa using alnum_space hcc)) (by decide) rfl
       (fun r h => by simpa [tokOk] using h)
   · exact spells_cast (hw 'i' ['n'] (by decide) (by decide) (by decide) (by decide) (by decide)) (by decide) (by decide)
       (fun r h => by simpa [tokOk, LexTables.std] using h)
